@@ -587,6 +587,11 @@ func (s *Sim) recordTxStats(eb *ExecBlock) {
 		if len(t.Spec.Msgs) > 0 {
 			typ = shortType(sdk.MsgTypeURL(t.Spec.Msgs[0]))
 		}
+		if t.OK() && strings.HasSuffix(t.Spec.Tag, "+gascut") {
+			// the meter ran dry inside the handler and the transaction still succeeded: a recover /
+			// log-and-continue path absorbed the out-of-gas panic
+			s.Stats.Probe("gas_cut_absorbed_by_handler")
+		}
 		if t.OK() {
 			if len(t.Spec.Msgs) > 0 && t.Res.GasUsed > 0 {
 				s.gasSeen[sdk.MsgTypeURL(t.Spec.Msgs[0])] = t.Res.GasUsed
